@@ -55,6 +55,29 @@ def drive(binary, seed, n, events, out, only=None):
     return json.loads(so.strip().splitlines()[-1])
 
 
+def corrupt(prop):
+    def f(lines):
+        for i, l in enumerate(lines):
+            d = json.loads(l)
+            if prop in ("C05", "C06") and "snap" in d and len(d["snap"]) >= 3 and i > 0:
+                gone = d["snap"][0]
+                d["snap"] = d["snap"][1:]                # an entry silently vanishes from the logged table
+                if prop == "C05":
+                    return "removed one entry from a logged table snapshot (counts left as reported)", lines[:i] + [json.dumps(d)] + lines[i + 1:]
+                d["numNodes"] -= 1
+                d["addrIndex"] -= 1
+                d["nodes"] = [x for x in d["nodes"] if x[0] != gone["id"] or x[1] != gone["addr"]]
+                d["goodNodes"] -= 1 if gone["good"] else 0
+                if gone["good"]:
+                    return "removed a good entry from a logged table snapshot and adjusted the counts", lines[:i] + [json.dumps(d)] + lines[i + 1:]
+            if prop == "C09" and d["e"] == "Answer" and (len(d["nodes"]) >= 2 or len(d["nodes6"]) >= 2):
+                k = "nodes" if len(d["nodes"]) >= 2 else "nodes6"
+                d[k] = d[k] + [["ff" * 20, "9.9.9.9:9"]]   # a contact nobody ever heard of
+                return "appended an unknown contact to a logged reply node list", lines[:i] + [json.dumps(d)] + lines[i + 1:]
+        return None
+    return f
+
+
 def run(prop, tier, seed, replay=None):
     t0 = time.time()
     v = vlib.Verdict(prop)
@@ -99,6 +122,13 @@ def run(prop, tier, seed, replay=None):
     with ThreadPoolExecutor(max_workers=min(len(jobs), max(1, vlib.NCPU // 2))) as ex:
         results = list(ex.map(one, jobs))
     events_total = hist = deviations = answers = 0
+    base = [r for r in results if r[0] != "exh" and r[3] is not None]
+    if not replay and base:
+        st_ = vlib.binding_selftest("Trace_RoutingTable", ("Trace_RoutingTable.cfg", "Trace_RoutingTable_relaxed.cfg"), base[0][1], corrupt(prop), INV_PROPS)
+        cov["binding_selftest"] = st_
+        log("  binding self-test: %s -> %s" % (st_["what"], "rejected, as required" if st_["detected"] else "NOT NOTICED"))
+        if not st_["detected"]:
+            v.inconclusive.append("binding self-test failed: the validator accepted a corrupted trace (%s)" % st_["what"])
     for s, out, st, tv, nev in results:
         if "crash" in st:
             # the process running the real server died (e.g. the table's own consistency panics): the history so far is the replay
